@@ -76,6 +76,16 @@ def run_case(case: dict[str, Any]) -> dict[str, Any]:  # noqa: C901, PLR0915
     trackers = {tol: plan.add_handler("tracker", what="last", constraint_tolerance=tol, sources={step}) for tol in TOLERANCES}
     seen: list[Any] = []
     ctx.add_observer(EventType.FINISHED_EVALUATION, lambda event: seen.append(event.data))
+    if case.get("reuse_transform") and transforms is not None and l_n:
+        # the same transforms object has meanwhile been used to validate another configuration (e.g. the inner configuration
+        # of a nested optimization) with other linear constraints
+        from ropt.config.enopt import EnOptConfig as _Cfg
+
+        first = _Cfg.model_validate(cfg, context=transforms)
+        other = {**cfg, "linear_constraints": {"coefficients": [[7.0 * (1 + j) for j in range(n)] for _ in range(l_n)],
+                                               "lower_bounds": [-1.0] * l_n, "upper_bounds": [1.0] * l_n}}
+        _Cfg.model_validate(other, context=transforms)
+        cfg = first  # type: ignore[assignment]
     code = plan.run_step(step, config=cfg, transforms=transforms)
     check(code == OptimizerExitCode.EVALUATION_STEP_FINISHED, "exit-code", f"evaluator step returned {code}", case)
     check(len(seen) == 1 and len(seen[0]["results"]) == 1, "harness", "expected one result", case)
@@ -86,6 +96,8 @@ def run_case(case: dict[str, Any]) -> dict[str, Any]:  # noqa: C901, PLR0915
     from ropt.ensemble_evaluator import EnsembleEvaluator
     from ropt.plugins import PluginManager
 
+    if not isinstance(cfg, dict):
+        return {"nontrivial": out["nontrivial"], "violated": out["max_violation"] > 0}
     config = EnOptConfig.model_validate({**cfg, "gradient": {"number_of_perturbations": 2, "perturbation_magnitudes": 0.01, "boundary_types": 1}},
                                         context=transforms)
     both = EnsembleEvaluator(config, transforms, ev, PluginManager()).calculate(
@@ -147,6 +159,12 @@ def check_result(case: dict[str, Any], res: Any, ev: AffineEvaluator, where: str
         check(got_lo is not None and got_hi is not None and got_vi is not None, f"{name}-info-missing",
               f"{where}: {name}: a finite bound exists but no differences/violations are reported", case)
         mag = np.abs(v) + np.where(np.isfinite(lo), np.abs(lo), 0.0) + np.where(np.isfinite(hi), np.abs(hi), 0.0)
+        reuse = "-after-transform-reuse" if case.get("reuse_transform") and name == "linear" and case.get("vscale") is not None else ""
+        if reuse:
+            ok = same(got_lo, e_lo, mag) and same(got_hi, e_hi, mag) and same(got_vi, e_vi, mag)
+            check(ok, "linear-diff-after-transform-reuse",
+                  f"{where}: linear differences {np.asarray(got_lo).tolist()} / {np.asarray(got_hi).tolist()} != {e_lo.tolist()} / {e_hi.tolist()} "
+                  "after the transforms object was used to validate another configuration", case)
         check(same(got_lo, e_lo, mag), f"{name}-lower-diff", f"{where}: {name}: lower diff {np.asarray(got_lo).tolist()} != {e_lo.tolist()}", case)
         check(same(got_hi, e_hi, mag), f"{name}-upper-diff", f"{where}: {name}: upper diff {np.asarray(got_hi).tolist()} != {e_hi.tolist()}", case)
         check(same(got_vi, e_vi, mag), f"{name}-violation", f"{where}: {name}: violation {np.asarray(got_vi).tolist()} != {e_vi.tolist()}", case)
@@ -223,6 +241,7 @@ def hypothesis_shard(item: dict[str, Any]) -> Collector:
             if not any(mask):
                 mask[draw(st.integers(0, n - 1))] = True
         return {
+            "reuse_transform": tkind in ("var", "all", "var-scales-only") and l_n > 0 and draw(st.integers(0, 3)) == 0,
             "mask": mask, "near": near,
             "n": n, "R": r_n, "L": l_n, "C": c_n, "x": x, "lb": lb, "ub": ub,
             "A": a_mat, "llb": llb, "lub": lub, "nlb": nlb, "nub": nub,
@@ -239,7 +258,7 @@ def hypothesis_shard(item: dict[str, Any]) -> Collector:
         col.case(case, nontrivial=info["nontrivial"], classes=(
             "violated" if info["violated"] else "feasible", f"L={case['L']}", f"C={case['C']}",
             "transforms" if case["vscale"] or case["voff"] or case["cscale"] else "plain",
-            "bounds-inf-both-sides" if mixed_var else "bounds-other", "fixed-variables" if case["mask"] and not all(case["mask"]) else "all-free",
+            "bounds-inf-both-sides" if mixed_var else "bounds-other", "transforms-object-reused" if case.get("reuse_transform") else "transforms-object-fresh", "fixed-variables" if case["mask"] and not all(case["mask"]) else "all-free",
             ("near-bound-large-magnitude" if max(abs(v) for v in case["x"]) > 100 else "near-bound") if case["near"] else "generic-bounds"))  # noqa: PLR2004
 
     run_hypothesis(col, cases(), body, seed=item["seed"], max_examples=item["examples"])
